@@ -98,6 +98,28 @@ def run_direct(chk, n_cfg):
                 outcome = ['unexpected', exn_name(e)]
                 break
         got_in = ([list(x) for x in log], outcome)
+        # whatever that history ended with (an ignore, a listener's exception), a listener registered afterwards is a listener:
+        # it is called for the next packet at its place in the documented order
+        late_added = []
+        if rng.random() < 0.6:
+            del log[:]
+            nk = 9000 + cfg
+            conn.register_packet_listener(lambda packet: log.append(('L', 777, packet.key)), classes[0], early=rng.random() < 0.5 and not late_added.append('early'))
+            p2 = classes[rng.randrange(1, len(classes))](context=ConnectionContext(protocol_version=757))
+            p2.key, p2.v = nk, 1
+            for _i, _e, _o, _flt, beh in ls:
+                beh[nk] = 'ret'
+            rbeh[nk] = 'ret'
+            try:
+                react(p2)
+                oc2 = [0]
+            except Exception as e:
+                oc2 = ['unexpected', exn_name(e)]
+            calls = [x for x in log if x[0] == 'L' and x[1] == 777]
+            chk.count('in-after', [cfg, bool(late_added)], True)
+            if oc2 != [0] or len(calls) != 1 or not any(x[0] == 'R' for x in log):
+                chk.violation('in-after', 'in-after:%d' % cfg, {'case': {'earlier_history_outcome': outcome, 'registered_early': bool(late_added)}, 'observed': {'log': [list(x) for x in log], 'outcome': oc2}},
+                              'a listener registered after a history that ended with outcome %s was called %d times for the next packet (log %s)' % (outcome, len(calls), [list(x) for x in log][:8]))
         mk = lambda early, out: [[i, flt, [[k, beh_sx(b)] for k, b in beh.items()]] for i, e, o, flt, beh in ls if e == early and o == out]
         reqs.append(('react_all', [rel, mk(True, False), mk(False, False), [[k, beh_sx(b)] for k, b in rbeh.items()], [[k, ci] for k, ci in packets]]))
         metas.append(('in', cfg, got_in, {'listeners': [[i, e, o, flt, {str(k): str(v) for k, v in beh.items()}] for i, e, o, flt, beh in ls], 'packets': packets, 'reaction': {str(k): str(v) for k, v in rbeh.items()}}))
